@@ -1,1 +1,30 @@
-fn main() {}
+//! Conformance harness for match rules (C21, C22), addresses (C23) and server GUIDs (C10, GUID part).
+//! Usage: rules <command> [args...]; every command writes one ndjson line per call of the real code.
+mod addr;
+mod guid;
+mod matchrule;
+mod util;
+
+fn main() {
+    // panics inside the code under test are data: keep them quiet, they are reported per case
+    std::panic::set_hook(Box::new(|_| {}));
+    let args: Vec<String> = std::env::args().collect();
+    if args.len() < 2 {
+        eprintln!("usage: rules <command> [args...]");
+        std::process::exit(2);
+    }
+    let rest = &args[2..];
+    match args[1].as_str() {
+        "match-obs" => matchrule::cmd_match_obs(rest),
+        "match-rand" => matchrule::cmd_match_rand(rest),
+        "rulestr-obs" => matchrule::cmd_rulestr_obs(rest),
+        "rulestr-rand" => matchrule::cmd_rulestr_rand(rest),
+        "addr-obs" => addr::cmd_addr_obs(rest),
+        "addr-rand" => addr::cmd_addr_rand(rest),
+        "guid-obs" => guid::cmd_guid_obs(rest),
+        other => {
+            eprintln!("unknown command {other}");
+            std::process::exit(2);
+        }
+    }
+}
